@@ -56,7 +56,7 @@ def scenarios(tier, seed):
             out.append((kinds, (p,)))
     for kinds in extra_sub:
         nw = writes_of(kinds)
-        for p in sorted(set(int(x) for x in rng.integers(0, nw + 1, size=6))):
+        for p in [int(x) for x in rng.integers(0, nw + 1, size=6)]:      # fixed count: the number of scenarios must not depend on the seed
             out.append((kinds, (p,)))
     if tier == 'thorough':
         for kinds in (ALL, ['xml', 'logits', 'alto'], ['render', 'line']):
